@@ -14,6 +14,7 @@ import Spg.Generated.AgileSyllables
 import Spg.Generated.Cli
 import Std.Data.HashMap
 import Spg.Model.Fields
+import Spg.Model.Title
 namespace Spg.Driver
 open Spg
 
@@ -370,6 +371,10 @@ def exec (env : Env) (line : String) : String :=
         let r : WLRecipe := { list := some wl, length := argInt as "L", sepChar := sepCharOf (parseSep (arg as "sep")) (parseCps (arg as "sepchar")), sepFunc := sepField (parseSep (arg as "sep")),
                               capitalize := strOfCps (parseCps (arg as "cap")) }
         wlCell cfg title r
+    else if op == "title" then
+      -- the transcription of strings.Title, claimed for ASCII words only
+      let w := parseCps (arg as "w")
+      if w.all (· < 128) then s!"t={showCps (Title.title w)} again={showCps (Title.title (Title.title w))}" else "non-ascii"
     else if op == "explode" then
       let bytes := parseHex (arg as "pw")
       let ch := explode (bytes.length + 1) bytes
